@@ -5,7 +5,7 @@
   src/primitives/common/{plane_sector.rs, linear_equation.rs (`OriginLinearEquation`),
   distance_iterator.rs}, src/geometry/mod.rs (`dot_product`, `length_squared`).
 
-  Trigonometry is NOT modelled. The Rust `Sector` / `Arc` hold two angles and call
+  Trigonometry is not modelled HERE. The Rust `Sector` / `Arc` hold two angles and call
   `PlaneSector::new(angle_start, angle_sweep)` (f32 `sin`/`cos` of micromath, or the 91-entry
   fixed-point table with feature `fixed_point`) in `contains()` and in `Points::new`. The model's
   `Sector` / `Arc` hold, instead of the two angles, the `PlaneSector` value that this call returns:
@@ -13,8 +13,11 @@
   (`half_plane_left.normal_vector`, `half_plane_right.normal_vector`). The correspondence obtains
   these five integers from the real code through the hook `verif_hooks::plane_sector` and puts them
   into the op line, so model and code see the same plane sector.
-  Trusted base: f32 / fixed-point trigonometry (`OriginLinearEquation::with_angle`), validated
-  numerically by the C18 oracle in both feature builds (harness/src/m_sector.rs).
+  For the `fixed_point` build `PlaneSector::new` is modelled separately (`EG.Model.FixedReal`,
+  `FixedTrig`, `PlaneSectorNew`: integer arithmetic on I16F16 bits, tied by the `sector.trig` stream),
+  so there the pipeline raw angles -> pixels is inside the model (`sector.fxpoints`).
+  Trusted base: micromath's f32 trigonometry of the default build (`OriginLinearEquation::with_angle`),
+  validated numerically by the C18 oracle (harness/src/m_sector.rs); `Angle::from_degrees` in both builds.
 
   Unbounded `Int`/`Nat`; plain `+ - *` are mathematical (overflow is C08's topic).
 -/
